@@ -67,6 +67,15 @@ def rule_r1(ctx: Ctx) -> None:
         ctx.count()
         got[(fp, rt)] = r if isinstance(r, str) else r["full_name"]
     ctx.check(got == cases, init.short, "namespace = root name / path relative to the root", "the namespace is the chain of directories from the root namespace directory (inclusive) down to the file; the full name is the namespace plus the short name", init.where(), {str(k): v for k, v in got.items() if v != cases[k]})
+    # a file that does not lie under the directory given as its root namespace is not a definition of that namespace: it is
+    # refused (a sibling of the root, a file next to the root directory, a file above it), never renamed into another namespace
+    outside = {}
+    for fp, rt in (("/w/common/Shared.1.0.dsdl", "/w/ns"), ("/w/Loose.1.0.dsdl", "/w/ns"), ("/w/ns/sub/T.1.0.dsdl", "/w/ns/sub/deeper"), ("/elsewhere/ns/T.1.0.dsdl", "/w/ns")):
+        r = _definition(ctx, fp, rt)
+        ctx.count()
+        if not isinstance(r, str):
+            outside[fp + " with root " + rt] = "accepted as %s" % r["full_name"]
+    ctx.check(not outside, init.short, "a file outside the root namespace directory is refused", "the name of a type is spelled by its path relative to its root namespace directory; a path that is not under that directory spells no name", init.where(), outside)
     # separators inside directory names are rejected
     r1 = _definition(ctx, root + "/a.b/T.1.0.dsdl", root)
     r2 = _definition(ctx, "/w/n.s/T.1.0.dsdl", "/w/n.s")
